@@ -917,5 +917,28 @@ class ParseTop(GParserModel):
         run.oblige("rejects_only_invalid", z3.Or(DOCS[0](gd, i), RULESL[0](DOCS[1](gd, i))), {"i": i, "ntokens": NT})
 
 
+class SpecConsistent(FunctionSpec):
+    """vacuity guard for the Spec itself: the unfoldings used as definitional facts are jointly satisfiable for every kind
+    of token under the cursor (a contradictory case would silently turn the paths of that kind into dead paths)"""
+
+    target = f"{GPARSER}.parse_expression"
+    label = "C10.token_spec[consistent]"
+
+    def source(self, engine):
+        return engine.program.funcs[self.target]
+
+    def direct(self, run: Run) -> None:
+        i = z3.Int("spec_i")
+        tg = OptStr.some_s(strip1(val(i)))
+        facts = [*term_unfold(i), *pre_unfold(i, NONE_S), *pre_unfold(i + 2, tg), *node_unfold(i, NONE_S), *node_unfold(i + 2, tg), *seql_unfold(i), *altl_unfold(i),
+                 *pf_unfold(i + 1, Expr.Str(z3.StringVal("x"))), *rules_unfold(i), *docs_unfold(sv("RULE_DOC"), i), *docs_unfold(sv("GRAMMAR_DOC"), i), t_kind(EOFT) == sv("EOI")]
+        for k in list(KINDS):
+            base = len(run.pc)
+            run.pc.extend([*facts, kind(i) == sv(k), i >= 0, i < NT])
+            run.oblige(f"cover.spec[{k}]", True)
+            del run.pc[base:]
+        run.oblige("spec.kinds_enumerated", len(KINDS) >= 40)
+
+
 def specs(tier):
-    return [Cursor("current"), Cursor("next"), Cursor("eat"), ParsePostfix(), *[ParseExpression(p) for p in (1, 2, 3, 4)], ParseRules(), ParseTop()]
+    return [SpecConsistent(), Cursor("current"), Cursor("next"), Cursor("eat"), ParsePostfix(), *[ParseExpression(p) for p in (1, 2, 3, 4)], ParseRules(), ParseTop()]
